@@ -127,6 +127,9 @@ def run_card(pid, tier, seed):
 # ---------------------------------------------------------------------------------------------------
 # TOKEN unit (strings): HandRangeToken::from_str with every Regex::new(r"...") call site replaced, in the
 # scratch copy only, by a DFA generated from that literal; harness module appended to hand_range_token.rs
+PARSE_PROBABILITY_FP = '8dc4433ad2061579'
+
+
 def token_injector(scratch):
     from extract import dfa
     p = os.path.join(scratch, 'src', 'hand_range', 'hand_range_token.rs')
@@ -139,6 +142,16 @@ def token_injector(scratch):
         raise Undecided('regex literals of the current source are outside the DFA generator\'s subset: %s' % e)
     if len(pats) == 0:
         raise Undecided('no Regex::new(r"...") call sites found')
+    # parse_probability is replaced by an abstraction in the harnesses (f32::from_str on symbolic text is out of reach
+    # for CBMC); the abstraction was argued for exactly this text, so the function is pinned by a fingerprint:
+    # a change voids the assumption and hands the decision to the failing-input search (never an alarm by itself)
+    try:
+        from extract import rsx
+        fp = rsx.sha(rsx.norm_fp(rsx.Source(p, src).item('fn', 'parse_probability')))
+    except Exception as e:
+        raise Undecided('lost anchor: fn parse_probability not found in hand_range_token.rs (%s)' % e)
+    if fp != PARSE_PROBABILITY_FP:
+        raise Undecided('lost anchor: assumed function parse_probability changed (fingerprint %s, expected %s): its abstraction in the Kani harnesses is no longer backed' % (fp, PARSE_PROBABILITY_FP))
     new += open(os.path.join(VERIF, 'kani', 'token_harness.rs')).read()
     open(p, 'w').write(new)
     open(os.path.join(scratch, 'src', 'verif_dfa.rs'), 'w').write(dfa.emit_rust(dfas))
